@@ -58,6 +58,9 @@ def main():
         except ref.HarnessError as e:
             print("HARNESS: %s" % e)
             sys.exit(2)
+        finally:
+            if hasattr(mon, "finish"):
+                mon.finish(stats)
         if stats.viol_total:
             for v in stats.violations:
                 print("REPRODUCED property=%s kind=%s py=%s: %s" % (a.prop, v["kind"], v["py"], v["detail"]))
